@@ -221,6 +221,18 @@ class VModule(V):
         self.name = name
 
 
+class VFStr(V):
+    """an f-string: the evaluated parts in order (constants as python str)"""
+    def __init__(self, parts):
+        self.parts = parts
+
+
+class VAttrs(V):
+    """the attribute dict of one node of a networkx graph (`graph.nodes[n]`, the values of `graph.nodes.items()`)"""
+    def __init__(self, nx, node_t):
+        self.nx, self.node_t = nx, node_t
+
+
 class VOpaque(V):
     """A value the generator does not interpret (strings built by f-strings, exceptions, ...)."""
     def __init__(self, what=""):
